@@ -37,6 +37,8 @@ use runner::Tier;
 thread_local! {
     pub static PANICS: std::cell::Cell<u64> = const { std::cell::Cell::new(0) };
     pub static LAST_PANIC: std::cell::RefCell<String> = const { std::cell::RefCell::new(String::new()) };
+    /// every panic message of this thread, in order (index = value of PANICS before the panic)
+    pub static PANIC_MSGS: std::cell::RefCell<Vec<String>> = const { std::cell::RefCell::new(Vec::new()) };
 }
 
 fn install_panic_hook() {
@@ -46,6 +48,7 @@ fn install_panic_hook() {
         PANICS.with(|p| p.set(p.get() + 1));
         let msg = format!("{info}");
         LAST_PANIC.with(|l| *l.borrow_mut() = msg.chars().take(300).collect());
+        PANIC_MSGS.with(|l| l.borrow_mut().push(msg.chars().take(300).collect()));
         if verbose {
             default(info);
         }
